@@ -8,7 +8,8 @@ Local Open Scope Z_scope.
 (* ---- decoding of the flat encoding produced by props/C39.py
    op:     [0; i; sz; al; tag; byCopy] OMake | [1; i] ODefault | [2; i; j] OMoveCtor | [3; i; j] OMoveAssign
            | [4; i] OCall | [5; i] OCleanup | [6; i] ODrop
-   result of one op: [dispatch; n; e_1 .. e_n], e = (code, arg, locflag)
+   result of one op: [dispatch; n; e_1 .. e_n], e = code + 16 * locflag + 512 * (arg + 1)   (one number per event:
+           the cost of a case is dominated by parsing its literals)
            dispatch: -2 not a construction, 0 invokeInline, K invokeSpill<K>, -1 neither
            code: 0 value ctor, 1 copy ctor, 2 move ctor, 3 dtor, 4 invoked, 5 pool alloc, 6 pool free, 7 malloc, 8 free
            arg: tag, or K / byte count;  locflag = 2 * loc + aligned, loc 0 = temporary, 1 = spill block, 2+v = inline in v *)
@@ -48,7 +49,7 @@ Fixpoint dec_events (n : nat) (l : list Z) : list event * list Z :=
   | O => ([], l)
   | S k =>
       match l with
-      | c :: a :: lf :: r => let '(es, rest) := dec_events k r in (dec_event c a lf :: es, rest)
+      | e :: r => let '(es, rest) := dec_events k r in (dec_event (e mod 16) (e / 512 - 1) ((e / 16) mod 32) :: es, rest)
       | _ => ([], [])
       end
   end.
